@@ -197,6 +197,17 @@ def curve_points(path):
     return out
 
 
+_ALT = None
+
+
+def las_alternates():
+    global _ALT
+    if _ALT is None:
+        from TotalDepth.LAS.core import LASConstants
+        _ALT = {k: list(v) for k, v in LASConstants.LGFORMAT_LAS.items()}
+    return _ALT
+
+
 def run_case(spec, scratch):
     """returns {'fails': [(detail, finding)], 'stats': {...}, 'nontriv': key or None}"""
     logging.disable(logging.CRITICAL)
@@ -251,6 +262,14 @@ def _run_case(spec, scratch, fails, stats, bump):
             key = nm
             if not re.fullmatch(r'[A-Za-z0-9_]+', nm):
                 continue
+            if spec.get('las_alt'):
+                # name the LAS curve by a listed alternate (LASConstants.LGFORMAT_LAS) instead of the format's channel name:
+                # 'only' -> no curve carries a literal channel name; 'mix' -> half of them do
+                al = las_alternates().get(nm)
+                if al and (spec['las_alt'] == 'only' or rng.random() < 0.5):
+                    key = rng.choice(al)
+                elif spec['las_alt'] == 'only':
+                    continue
         if key in names.values():
             continue
         kind, lL, rL = lst[0][1], lst[0][2]._lL, lst[0][2]._rL
@@ -568,6 +587,11 @@ def build_specs(ctx):
                 classes = CLASSES if ctx.tier == 'thorough' else ['mixed', 'absent'] + rng.sample(CLASSES[:6], 2)
                 for d in classes:
                     add(inp, f, d)
+    # LAS curves named by alternates of the format channels (direct Plot.plotLogPassLAS): a plot must be produced
+    for f in fmts:
+        for mode in ('only', 'mix'):
+            for _ in range(ctx.n(1, 4)):
+                add('LAS', f, rng.choice(['smooth', 'mixed', 'absent', 'spiky']), las_alt=mode)
     for _ in range(ctx.n(120, 1500)):
         add('LIS', gen_tables(rng), rng.choice(CLASSES))
     # the overflow class (known finding): LAS only, doubles near the top of the range
